@@ -41,8 +41,8 @@ def byMime : List (String × String) := [
 def caught : List (String × List String) := [
   ("csv", []),
   ("html", ["xml.etree.ElementTree.ParseError"]),
-  ("json", ["json.decoder.JSONDecodeError", "builtins.UnicodeDecodeError"]),
-  ("json5", ["builtins.ValueError"]),
+  ("json", ["json.decoder.JSONDecodeError", "builtins.UnicodeDecodeError", "builtins.RecursionError"]),
+  ("json5", ["builtins.ValueError", "builtins.RecursionError"]),
   ("pickle", ["fickling.fickle.PickleDecodeError"]),
   ("plist", ["xml.parsers.expat.ExpatError", "builtins.ValueError", "builtins.IndexError"]),
   ("xml", ["xml.etree.ElementTree.ParseError"]),
@@ -52,8 +52,8 @@ def caught : List (String × List String) := [
 /-- ASSUMED: what each type's external parser raises on invalid syntax (validated by fault enumeration) -/
 def raisable : List (String × List String) := [
   ("html", ["xml.etree.ElementTree.ParseError"]),
-  ("json", ["json.decoder.JSONDecodeError", "builtins.UnicodeDecodeError"]),
-  ("json5", ["builtins.ValueError", "builtins.UnicodeDecodeError"]),
+  ("json", ["json.decoder.JSONDecodeError", "builtins.UnicodeDecodeError", "builtins.RecursionError"]),
+  ("json5", ["builtins.ValueError", "builtins.UnicodeDecodeError", "builtins.RecursionError"]),
   ("plist", ["xml.parsers.expat.ExpatError", "plistlib.InvalidFileException", "builtins.ValueError", "builtins.IndexError"]),
   ("xml", ["xml.etree.ElementTree.ParseError"]),
   ("yaml", ["yaml.scanner.ScannerError", "yaml.parser.ParserError", "yaml.reader.ReaderError", "yaml.composer.ComposerError", "yaml.constructor.ConstructorError"])
@@ -62,6 +62,7 @@ def raisable : List (String × List String) := [
 /-- method resolution order of every assumed-raisable class -/
 def mro : List (String × List String) := [
   ("builtins.IndexError", ["builtins.IndexError", "builtins.LookupError", "builtins.Exception", "builtins.BaseException", "builtins.object"]),
+  ("builtins.RecursionError", ["builtins.RecursionError", "builtins.RuntimeError", "builtins.Exception", "builtins.BaseException", "builtins.object"]),
   ("builtins.UnicodeDecodeError", ["builtins.UnicodeDecodeError", "builtins.UnicodeError", "builtins.ValueError", "builtins.Exception", "builtins.BaseException", "builtins.object"]),
   ("builtins.ValueError", ["builtins.ValueError", "builtins.Exception", "builtins.BaseException", "builtins.object"]),
   ("json.decoder.JSONDecodeError", ["json.decoder.JSONDecodeError", "builtins.ValueError", "builtins.Exception", "builtins.BaseException", "builtins.object"]),
